@@ -348,7 +348,9 @@ fn url_of(c: &Case, l1_port: u16, closed_port: u16, sock_dir: &std::path::Path) 
         Scheme::Ldapx => "ldapx",
         Scheme::Http => "http",
     };
-    let enc = |p: &std::path::Path| -> String { p.to_string_lossy().bytes().map(|b| if b.is_ascii_alphanumeric() || b == b'.' || b == b'-' || b == b'_' { (b as char).to_string() } else { format!("%{:02X}", b) }).collect() };
+    // RFC 3986: the hex digits of a percent-escape are case-insensitive (%2F = %2f); every second noise value writes them in lower case
+    let lower_hex = c.noise % 2 == 1;
+    let enc = |p: &std::path::Path| -> String { p.to_string_lossy().bytes().map(|b| if b.is_ascii_alphanumeric() || b == b'.' || b == b'-' || b == b'_' { (b as char).to_string() } else if lower_hex { format!("%{:02x}", b) } else { format!("%{:02X}", b) }).collect() };
     let host = match c.host {
         Host::V4 => "127.0.0.1".to_string(),
         Host::Localhost => "localhost".to_string(),
@@ -615,7 +617,7 @@ pub fn property() -> Property {
     Property {
         id: "C18",
         level: "exploration",
-        rule: "generated URL x settings combinations through both LdapConnAsync::with_settings and LdapConn::with_settings against real loopback endpoints: scheme {ldap, LDAP, ldaps, ldapi, ldapx, http} x host {127.0.0.1, localhost, [::1], absent, percent-encoded socket path existing / missing / containing %3A / containing a literal %41 (written %2541), a name that does not resolve (with a pre-opened TCP stream, which must be used)} x port {absent (default 389/636 listeners bound by the harness), a listening port, a closed port, 0, non-numeric} x path/query noise x StartTLS flag x pre-opened stream {none, connected TCP, Unix pair, Invalid} x conn_timeout {none, 100-300 ms, 10 s, practically infinite incl. Duration::MAX} x server {cooperative, silent during StartTLS / the TLS handshake - on a dialled connection or on a pre-opened TCP stream}, optional userinfo in the URL, plus syntactically broken URLs. Oracle: a reference model of the documented dispatch (DESIGN.md Appendix C) predicts Ok and WHICH endpoint must receive the connection (per-case listeners count accepts), or Err (Timeout for the silent-server case); a panic is always a violation; the silent-server case is a violation only if the client is still blocked after 100x the deadline. Non-trivial: any combination other than plain ldap://host:port with defaults. Distinct = debug rendering of the case.",
+        rule: "generated URL x settings combinations through both LdapConnAsync::with_settings and LdapConn::with_settings against real loopback endpoints: scheme {ldap, LDAP, ldaps, ldapi, ldapx, http} x host {127.0.0.1, localhost, [::1], absent, percent-encoded socket path (escapes with upper- or lower-case hex digits) existing / missing / containing %3A / containing a literal %41 (written %2541), a name that does not resolve (with a pre-opened TCP stream, which must be used)} x port {absent (default 389/636 listeners bound by the harness), a listening port, a closed port, 0, non-numeric} x path/query noise x StartTLS flag x pre-opened stream {none, connected TCP, Unix pair, Invalid} x conn_timeout {none, 100-300 ms, 10 s, practically infinite incl. Duration::MAX} x server {cooperative, silent during StartTLS / the TLS handshake - on a dialled connection or on a pre-opened TCP stream}, optional userinfo in the URL, plus syntactically broken URLs. Oracle: a reference model of the documented dispatch (DESIGN.md Appendix C) predicts Ok and WHICH endpoint must receive the connection (per-case listeners count accepts), or Err (Timeout for the silent-server case); a panic is always a violation; the silent-server case is a violation only if the client is still blocked after 100x the deadline. Non-trivial: any combination other than plain ldap://host:port with defaults. Distinct = debug rendering of the case.",
         assumptions: &[
             "ports 389/636 on 127.0.0.1 and ::1 are bound by the harness; if they cannot be bound those sub-cases are skipped (labelled), never reported",
             "for URLs the documentation does not define (raw broken/authority-less URLs) only a panic is a violation",
